@@ -28,6 +28,9 @@ def jobs(tier):
     for p, k in pk:
         for m in METHODS:
             js.append({"for": "C09", "form": "a", "p": p, "k": k, "schedule": {"2020": m}, "years": [2020]})
+    for m in ("lifo", "hifo"):
+        # a preferred lot bought between two disposals of the prefix, then any later lot
+        js.append({"for": "C09", "form": "a", "p": "BSBS", "k": "B", "schedule": {"2020": m}, "years": [2020]})
     for p, k in pk[:3]:
         for m1, m2 in (("fifo", "hifo"), ("hifo", "lifo"), ("lifo", "fifo"), ("lofo", "hifo")):
             js.append({"for": "C09", "form": "a", "p": p, "k": k, "schedule": {"2020": m1, "2021": m2}, "years": [2020, 2021]})
@@ -71,7 +74,7 @@ def weight(spec):
 
 def bounds(tier):
     return {
-        "C09a": "prefix P of 2-3 transactions, continuation K of 1-2, all of K strictly after all of P; 4 methods and selected two-year schedules",
+        "C09a": "prefix P of 2-3 (one job: 4) transactions, continuation K of 1-2, all of K strictly after all of P; 4 methods and selected two-year schedules; rows numbered as in a sheet with stacked tables, so that the continuation renumbers the rows of P",
         "C09b": "same histories with a symbolic to_date, date(last of P) <= to_date < date(first of K), 2-year window",
         "C10": "histories of %s transactions in a 2-year window, symbolic from_date <= to_date anywhere from 2019-12-30 to 2022-01-01 (on/before/after/between transaction dates, empty windows)" % ("3" if tier == "quick" else "3-4"),
         "amounts": "k*1e-11 in [1e-11, 1e9]",
@@ -85,10 +88,12 @@ def assumptions():
     return ["allow_negative_balances=True", "date-filtered runs use one UTC offset for the whole history (0 or symbolic)", "the compared quantities are read from ComputedData (gain/loss set and its fraction numbering, yearly list, balances, average price, filtered transaction sets)"]
 
 
-def snapshot(S, cd, rows=None):
-    """comparable view of a ComputedData; rows: restrict gain/loss entries to events with these rows"""
+def snapshot(S, cd, rows=None, rowmap=None):
+    """comparable view of a ComputedData; rows: restrict gain/loss entries to events with these rows;
+    rowmap: translate sheet rows into slot numbers (the two runs of C09 number their rows differently)"""
     gls = cd.gain_loss_set
-    snap = {"in": [t.row for t in cd.in_transaction_set], "out": [t.row for t in cd.out_transaction_set], "intra": [t.row for t in cd.intra_transaction_set], "taxable": [t.row for t in cd.taxable_event_set]}
+    tr_ = (lambda r: r) if rowmap is None else (lambda r: rowmap[r])
+    snap = {"in": [tr_(t.row) for t in cd.in_transaction_set], "out": [tr_(t.row) for t in cd.out_transaction_set], "intra": [tr_(t.row) for t in cd.intra_transaction_set], "taxable": [tr_(t.row) for t in cd.taxable_event_set]}
     gl = []
     for g in gls:
         if rows is not None and g.taxable_event.row not in rows:
@@ -96,7 +101,7 @@ def snapshot(S, cd, rows=None):
         lot = g.acquired_lot
         gl.append(
             {
-                "id": (g.taxable_event.row, lot.row if lot is not None else None),
+                "id": (tr_(g.taxable_event.row), tr_(lot.row) if lot is not None else None),
                 "long": bool(g.is_long_term_capital_gains()),
                 "num": (
                     gls.get_taxable_event_fraction(g),
@@ -141,10 +146,20 @@ def run(S, spec):
     return run_c10(S, spec, RP2ValueError)
 
 
+def _sheet_rows(slots):
+    """row numbers as in a sheet with the IN, OUT and INTRA tables stacked (first data row = 8): adding a later lot at the
+    bottom of the IN table moves every out- and intra-row down, also across the 9 -> 10 digit boundary"""
+    order = [i for i, s in enumerate(slots) if s["table"] == "IN"] + [i for i, s in enumerate(slots) if s["table"] == "OUT"] + [i for i, s in enumerate(slots) if s["table"] == "INTRA"]
+    return {i: 8 + pos for pos, i in enumerate(order)}
+
+
 def run_c09(S, spec, RP2ValueError):
     years = spec["years"]
     np_ = len(spec["p"])
-    slots = slots_of(spec["p"] + spec["k"])
+    base = slots_of(spec["p"] + spec["k"])
+    rw = _sheet_rows(base)
+    rp = _sheet_rows(base[:np_])
+    slots = [dict(s, row=rw[i]) for i, s in enumerate(base)]
     if spec.get("off") == "shared":
         h = Hist(S, slots, years, shared_off=S.int("off", -720, 840), shared_sym=True)
     else:
@@ -152,15 +167,17 @@ def run_c09(S, spec, RP2ValueError):
     S.assume_cmp(h.t[np_ - 1], "<", h.t[np_])
     hp = Hist.__new__(Hist)
     hp.__dict__.update(h.__dict__)
-    hp.slots = slots[:np_]
+    hp.slots = [dict(s, row=rp[i]) for i, s in enumerate(base[:np_])]
     hp.txs = [None] * np_
+    mp = {r: i for i, r in rp.items()}
+    mw = {r: i for i, r in rw.items()}
     cfg = make_cfg("us", allow_negative=True)
     try:
         cda = run_tax(cfg, spec["schedule"], hp.build(cfg))
     except RP2ValueError:
         return "error-prefix"
-    prows = {h.row(i) for i in range(np_)}
-    sa = snapshot(S, cda)
+    prows = set(range(np_))
+    sa = snapshot(S, cda, rowmap=mp)
     if spec["form"] == "a":
         try:
             cdb = run_tax(cfg, spec["schedule"], h.build(cfg))
@@ -168,7 +185,7 @@ def run_c09(S, spec, RP2ValueError):
             # the continuation may over-spend; the prefix must then still have been fine, nothing else to compare
             S.expect("Total in-transaction crypto value" in str(e), "C09", "other-error", str(e)[:200])
             return "error-whole"
-        gb = [g for g in snapshot_gl_only(S, cdb) if g["id"][0] in prows]
+        gb = [g for g in snapshot(S, cdb, rowmap=mw)["gl"] if g["id"][0] in prows]
         # numbering: the event-side numbering of P's events must be unchanged (lot-side totals may grow: later sales of the same lot)
         same_gl(S, "C09", "prefix", sa["gl"], gb, numbering=False)
         for x, y in zip(sa["gl"], gb):
@@ -196,7 +213,7 @@ def run_c09(S, spec, RP2ValueError):
     except RP2ValueError as e:
         S.expect("Total in-transaction crypto value" in str(e), "C09", "other-error", str(e)[:200])
         return "error-whole"
-    sc = snapshot(S, cdc)
+    sc = snapshot(S, cdc, rowmap=mw)
     for k in ("in", "out", "intra", "taxable"):
         S.expect(sa[k] == sc[k], "C09", "todate-" + k, "%s rows: truncated %s vs to_date %s" % (k, sa[k], sc[k]))
     same_gl(S, "C09", "todate", sa["gl"], sc["gl"], numbering=True)
